@@ -4,11 +4,12 @@
    in the form "a resource in state ABSENCE contributes 0 and costs 0"; that
    the state is ABSENCE exactly at the listed steps is searched by the oracle.
    The deletion clause (f) is proved for the task priority rules that do not
-   read PERT values (2, 3, 5, 6, 7, 8), with the auto-task flag off or without
-   automatic tasks; for the other rules it is searched (rule 4, FIFO, has the recorded finding). *)
+   read PERT values (2, 3, 5, 6, 7, 8) and for TSLACK / EST on finish-to-start
+   DAGs, with the auto-task flag off or without automatic tasks; otherwise it
+   is searched (rule 4, FIFO, has the recorded finding). *)
 From Coq Require Import List ZArith QArith Bool Arith.
 From PV Require Import Model.Types Model.Sim Model.LogEdit Model.Example Proofs.Base Proofs.RunLemmas Proofs.C01Proof
-  Proofs.C02Proof Proofs.LogsProof Proofs.C0708Proof Proofs.C10Proof Proofs.C13Proof Proofs.KeyCong Proofs.C10Del Proofs.C10Final.
+  Proofs.C02Proof Proofs.LogsProof Proofs.C0708Proof Proofs.C10Proof Proofs.C13Proof Proofs.C12Proof Proofs.KeyCong Proofs.C10Del Proofs.C10Final.
 Import ListNotations.
 Open Scope nat_scope.
 
@@ -82,37 +83,34 @@ Print Assumptions C10_refresh_sets_absence.
    (task state / remaining work / allocations, worker and facility records,
    component records, workplace contents) and the same logs and cost lists at
    every level; only the PERT scratch values (est/eft/lst/lft, critical path
-   length) are not compared.  Hypotheses: the task priority rule does not read
-   PERT values, perform_auto_task_while_absence_time is off, no worker or
-   facility has an absence list of its own, the component trees are disjoint,
-   the run starts from initialize(state_info=True, log_info=True) and ends
-   with every task FINISHED.  (Component-bound automatic tasks need no
-   exclusion when the flag is off.) *)
+   length) are not compared.  For every absence list (any order, repeated
+   steps, steps beyond the end of the run).  Hypotheses:
+   - an absence step is dead: perform_auto_task_while_absence_time is off, or
+     the project has no automatic task (configuration well formed);
+   - the priority rule orders the candidates the same way in both runs: it
+     does not read PERT values (SPT, LPT, LRPT, SRPT, LWRPL, SWRPL), or it is
+     TSLACK / EST on a finish-to-start DAG with non-negative work amounts
+     (all critical-path values then shift by the number of absence steps);
+   - no worker or facility has an absence list of its own, the component trees
+     are disjoint, the run starts from initialize(True, True) and ends with
+     every task FINISHED.
+   Component-bound automatic tasks need no exclusion when the flag is off.
+   FIFO is excluded: the statement is false for it (recorded finding). *)
 Theorem C10_deletion_gives_the_absence_free_run : forall c o,
-  pert_free (o_rule o) -> o_auto_abs o = false ->
+  (o_auto_abs o = false
+   \/ ((forall t, t_auto c t = false)
+       /\ (forall w, In w (all_workers c) -> w < nW c) /\ NoDup (all_workers c)
+       /\ (forall p f, In f (wp_facs c p) -> f < nF c))) ->
+  (pert_free (o_rule o)
+   \/ ((o_rule o = 0 \/ o_rule o = 1)%Z
+       /\ (exists rank, fs_dag c rank) /\ 0 < nT c
+       /\ (forall t, t < nT c -> (0 <= t_work c t)%Q /\ (0 <= t_progress c t <= 1)%Q))) ->
   (forall w, w_abs c w = []) -> (forall f, f_abs c f = []) -> Forest c ->
   o_init_state o = true -> o_init_log o = true ->
   forall s0, status (fst (simulate c o s0)) = StSuccess ->
   same_result c (snd (remove_absence c (o_abs o, fst (simulate c o s0)))) (fst (simulate c (no_abs o) s0)).
-Proof. intros c o Hr Ha Hw Hf HF Hi Hl. exact (deletion_gives_the_absence_free_run c o Hr Hw Hf HF Hi Hl Ha). Qed.
+Proof. intros c o HS HP Hw Hf HF Hi Hl. exact (deletion_gives_the_absence_free_run c o Hw Hf HF Hi Hl HS HP). Qed.
 Print Assumptions C10_deletion_gives_the_absence_free_run.
-
-(* the same with the flag ON when the project has no automatic task (then the
-   flag cannot matter); the configuration must be well formed: workers listed
-   once and in range, facilities in range *)
-Theorem C10_deletion_with_the_flag_on_and_no_automatic_task : forall c o,
-  pert_free (o_rule o) -> o_auto_abs o = true -> (forall t, t_auto c t = false) ->
-  (forall w, In w (all_workers c) -> w < nW c) -> NoDup (all_workers c) ->
-  (forall p f, In f (wp_facs c p) -> f < nF c) ->
-  (forall w, w_abs c w = []) -> (forall f, f_abs c f = []) -> Forest c ->
-  o_init_state o = true -> o_init_log o = true ->
-  forall s0, status (fst (simulate c o s0)) = StSuccess ->
-  same_result c (snd (remove_absence c (o_abs o, fst (simulate c o s0)))) (fst (simulate c (no_abs o) s0)).
-Proof.
-  intros c o Hr Ha Hna W1 W2 W3 Hw Hf HF Hi Hl.
-  exact (deletion_auto_flag_without_auto_tasks c o Hr Hw Hf HF Hi Hl W1 W2 W3 Ha Hna).
-Qed.
-Print Assumptions C10_deletion_with_the_flag_on_and_no_automatic_task.
 
 (* the step relation behind it: an absence step leaves the key of the state
    unchanged up to the worker / facility states; a working step of the run with
@@ -135,4 +133,25 @@ Proof.
   split; [left; reflexivity|]. split; [intros w; reflexivity|]. split; [intros f; reflexivity|].
   split; [|vm_compute; repeat split].
   intros k. destruct k as [|[|k]]; vm_compute; repeat constructor; cbn; intuition discriminate.
+Qed.
+
+(* non-vacuity of the TSLACK case: the finish-to-start diamond under rule 0
+   with absence at steps 1 and 2 ends two steps later than without absence,
+   and the deleted task log equals the absence-free one *)
+Definition ex_del_opts0 : opts := mkOpts 0%Z [2; 1; 1] false true true 50 [].
+Example C10_deletion_example_tslack :
+  (exists rank, fs_dag ex_fs_cfg rank)
+  /\ status (fst (simulate ex_fs_cfg ex_del_opts0 (blank ex_fs_cfg))) = StSuccess
+  /\ time (fst (simulate ex_fs_cfg ex_del_opts0 (blank ex_fs_cfg))) = 2 + time (fst (simulate ex_fs_cfg (no_abs ex_del_opts0) (blank ex_fs_cfg)))
+  /\ l_st (tl (snd (remove_absence ex_fs_cfg (o_abs ex_del_opts0, fst (simulate ex_fs_cfg ex_del_opts0 (blank ex_fs_cfg))))) 1)
+     = l_st (tl (fst (simulate ex_fs_cfg (no_abs ex_del_opts0) (blank ex_fs_cfg))) 1).
+Proof.
+  split; [exists (fun v => v)|vm_compute; repeat split].
+  constructor.
+  - intros u e. destruct u as [|[|[|u]]]; cbn; intuition (subst; reflexivity).
+  - intros u v k. destruct u as [|[|[|[|u]]]]; destruct v as [|[|[|[|v]]]]; cbn; intuition congruence.
+  - intros u e. destruct u as [|[|[|u]]]; cbn; intuition (subst; cbn; auto with arith).
+  - intros v e. destruct v as [|[|[|[|v]]]]; cbn; intuition (subst; cbn; auto with arith).
+  - intros u e. destruct u as [|[|[|u]]]; cbn; intuition (subst; cbn; auto with arith).
+  - intros v Hv. exact Hv.
 Qed.
